@@ -27,16 +27,44 @@ def module_src(modname: str) -> str:
     return _cache[modname][1]
 
 
-def find_def(modname: str, qualname: str, ordinal: int = -1):
+def _defs_at_level(body):
+    """definitions of one scope in source order, looking through if / try / with blocks (version switches) but not into
+    functions or classes"""
+    out = []
+    for n in body:
+        if isinstance(n, (ast.FunctionDef, ast.ClassDef, ast.AsyncFunctionDef)):
+            out.append(n)
+        elif isinstance(n, ast.If):
+            out += _defs_at_level(n.body) + _defs_at_level(n.orelse)
+        elif isinstance(n, ast.Try):
+            out += _defs_at_level(n.body) + [d for h in n.handlers for d in _defs_at_level(h.body)] + _defs_at_level(n.orelse) + _defs_at_level(n.finalbody)
+        elif isinstance(n, ast.With):
+            out += _defs_at_level(n.body)
+    return out
+
+
+def find_def(modname: str, qualname: str, ordinal: int = -1, firstlineno=None):
     """FunctionDef/ClassDef by dotted qualified name inside the module ('Cls.method', 'func').
-    When a name is defined several times at one level (typing.overload stubs followed by the
-    implementation) the LAST definition is the one Python binds, hence ordinal=-1."""
+    When a name is defined several times at one level (typing.overload stubs followed by the implementation, or one definition
+    per branch of a version switch) the one Python bound is identified by `firstlineno` (the code object's first line, which is
+    the first decorator's line) when the caller has the function object; otherwise the LAST definition at the top level of the
+    scope, as before."""
     node = module_ast(modname)
-    for part in qualname.split("."):
-        cands = [n for n in node.body if isinstance(n, (ast.FunctionDef, ast.ClassDef, ast.AsyncFunctionDef)) and n.name == part]
+    parts = qualname.split(".")
+    for pi, part in enumerate(parts):
+        top = [n for n in node.body if isinstance(n, (ast.FunctionDef, ast.ClassDef, ast.AsyncFunctionDef)) and n.name == part]
+        cands = [n for n in _defs_at_level(node.body) if n.name == part]
         if not cands:
             raise KeyError("%s: no definition %r (in %s)" % (modname, part, qualname))
-        node = cands[ordinal] if part == qualname.split(".")[-1] else cands[-1]
+        if pi == len(parts) - 1:
+            if firstlineno is not None:
+                hit = [n for n in cands if min([n.lineno] + [d.lineno for d in n.decorator_list]) == firstlineno]
+                if hit:
+                    node = hit[0]
+                    continue
+            node = (top or cands)[ordinal]
+        else:
+            node = (top or cands)[-1]
     return node
 
 
